@@ -65,3 +65,13 @@ Definition iso_penalty (m : list (list pcell)) : N :=
 (* on module bytes: encoding region = type code 0 *)
 Definition pcell_of_byte (b : N) : pcell := (N.eqb (N.div2 b) 0, N.odd b).
 Definition oracle_penalty (m : list (list N)) : N := iso_penalty (map (map pcell_of_byte) m).
+
+(* parts of the documented penalty, for comparison with the parts the implementation computes *)
+Definition oracle_penalty_parts (m : list (list N)) : N * N * N :=
+  let pm := map (map pcell_of_byte) m in
+  let n := length m in
+  let pt := transpose_rows (false, false) n pm in
+  (sumN (map runs_penalty pm) + sumN (map runs_penalty pt),
+   40 * (sumN (map windows pm) + sumN (map windows pt)),
+   ratio_penalty n pm).
+Definition oracle_line (l : list N) : N * N := let pl := map pcell_of_byte l in (40 * windows pl, runs_penalty pl).
